@@ -33,8 +33,9 @@ w_catch :- ( between(1, 1500, X), catch(( X mod 3 =:= 0 -> throw(oops(X)) ; true
 w_freeze :- ( between(1, 800, X), freeze(V, (W = X)), V = go, W == X, fail ; true ).
 w_string :- numlist(1, 1500, Ns), maplist(int_char, Ns, Cs), atom_chars(A, Cs), atom_length(A, 1500), append(Cs, Cs, Ds), length(Ds, 3000).
 int_char(N, C) :- M is 97 + N mod 26, char_code(C, M).
-"""
-WORKLOADS = ["w_rec", "w_search", "w_findall", "w_assert", "w_catch", "w_freeze", "w_string"]
+w_attrhead :- ( between(1, 40, X), freeze(V, true), big(V, L, X), L = [_|_], fail ; true ).
+""" + "big(go, [" + ",".join("e%d" % i for i in range(420)) + "], _).\n"
+WORKLOADS = ["w_rec", "w_search", "w_findall", "w_assert", "w_catch", "w_freeze", "w_string", "w_attrhead"]
 FOLLOW = [("X is 6*7.", ("X", "42")), ("findall(Y, member(Y,[a,b,c]), L), length(L, N).", ("N", "3")), ("atom_length(abcde, N).", ("N", "5")),
           ("cnt(500), X = done.", ("X", "done"))]
 SLACK = 400
@@ -153,7 +154,7 @@ def run(ctx):
         failures.append({"key": "interrupt:late-delivery", "what": "the interrupt exception surfaced outside the proved delivery window (poll period %d, slack %d)" % (period, SLACK),
                          "input": "%s with the flag raised at loop turn %d" % (m[1], m[2]), "impl": "goal ended at turn %d" % cnt, "spec": "%d < end <= %d" % (m[2], m[2] + period + SLACK), "property_fails": True})
     return {"evaluations": evals, "distinct_nontrivial": nontriv,
-            "rule": ("seven workloads (deep recursion, backtracking search, findall, assertz/retract loop, catch/throw loop, freeze wake-ups, string building); the interrupt flag is raised through the "
+            "rule": ("eight workloads (deep recursion, backtracking search, findall, assertz/retract loop, catch/throw loop, freeze wake-ups, string building, an attributed variable bound in a clause head that goes on for 400 more head instructions); the interrupt flag is raised through the "
                      "hook at loop turn n for n in {0,1,2,5,17,255,256,257,511,512, T/2, ...} plus random n below the workload's length T; 10 injections per machine, each followed by a goal with a known "
                      "answer, and a final uninterrupted rerun of the workload. Non-trivial = an injection that actually interrupted the workload (counted once per (workload, n))."),
             "samples": samples, "distribution": dist, "failures": failures, "tie_breaks": tie_breaks}
